@@ -8,8 +8,8 @@ from lib import gen_net
 from gen import c14_revision, c14_nets
 
 ID = "C14"
-PROPS_FILES = ["Gama/Props/C14.lean", "Gama/Props/C14PeWitness.lean"]
-LEAN_TARGETS = ["Gama.Props.C14", "Gama.Props.C14PeWitness"]
+PROPS_FILES = ["Gama/Props/C14.lean", "Gama/Props/C14PeWitness.lean", "Gama/Props/C14Physical.lean"]
+LEAN_TARGETS = ["Gama.Props.C14", "Gama.Props.C14PeWitness", "Gama.Props.C14Physical"]
 DRIVERS = ["drv_revise"]
 RULE = ("generated 2D/3D networks (directions, distances, angles, azimuths, slope distances, zenith angles, height "
         "differences, vectors; stdev varied against sigma-apr) with injected defects: isolated point, point with one "
@@ -65,8 +65,15 @@ LEVEL_NOTE = ("Trusted: Lean kernel; the statements in Props/C14.lean including 
               "drv_net), not by C14's.  ORACLE-ONLY in C14: the absolute-term stage inside the program flow "
               "(vybocujici_abscl_, C14-F1 is a known finding there: the tree tests the homogenised entry, the documentation "
               "promises the positional misclosure; and for correlated blocks the homogenised vector of the deleted input is "
-              "not a sub-vector of the original), physical deletion of <point>/<obs> elements (id-based deleteItems, "
-              "renaming of the unknowns), IEEE rounding, all algorithms x tol-abs on gama-local.")
+              "not a sub-vector of the original), IEEE rounding, all algorithms x tol-abs on gama-local.  "
+              "PHYSICAL deletion of <point>/<obs> elements (round 12, Props/C14Physical.lean): proved for ONE inner call — "
+              "the linearisation pass under any injective relabelling of point/cluster positions returns the same rows and "
+              "right-hand side and the relabelled index table (C14_pe_pass_relabelled), and assembling the network with its "
+              "unused points and emptied clusters removed gives the same m, n, rows, rhs, cofactor blocks, hence the same "
+              "netSolve answer for every algorithm (C14_pe_solution_equals_physical_deletion_partial, hypothesis RolesKept); "
+              "NOT proved for the whole call: the revision, singular_coords, min_x and the unknowns_ table under the "
+              "relabelling — there the oracle (gama-local on the file with the elements deleted) is the evidence; a removed "
+              "point left in the file as free costs a second inner call (evaluated example corFree, same answers).")
 TECHNIQUE = "Lean 4 proof over a model partly regenerated from the source (translator) + model/implementation correspondence + end-to-end oracle"
 TRUSTED = ["tools/gen/c14_revision.py: regex/mini-parser translator of local_revision.{h,cpp}, TestAbsTermVisitor and the "
            "StandPoint loop of revision_observations (interpreter TStmt.run / TCond.eval in Model/ReviseTypes.lean: std::set as a "
